@@ -44,6 +44,23 @@ def _call(e):
     return s
 
 
+def sleeping_runs(tracefile):
+    """distinct (instance, call order, results) runs in which at least one poll / wait returned Pending"""
+    seen, cur, hit = set(), [], False
+    with open(tracefile) as f:
+        for line in f:
+            if '"ev":"reset"' in line:
+                if cur and hit:
+                    seen.add(hash(tuple(cur)))
+                cur, hit = [line], False
+            else:
+                cur.append(line)
+                hit = hit or '"r":"pending"' in line
+    if cur and hit:
+        seen.add(hash(tuple(cur)))
+    return len(seen)
+
+
 def negative_control(rep):
     """two tasks on an Option<Waker> slot: TLC must find NoLostWakeup violated, otherwise the invariant is vacuous"""
     wd = vlib.workdir(PID + "/neg")
@@ -101,11 +118,16 @@ def run(tier, rep):
     rep.cov["parts"]["instances"] = {i["name"]: {"classes": i["classes"], "binds": i["binds"], "sequences": stats["kept"].get(i["name"], 0),
                                                  "not_applicable": stats["dropped"].get(i["name"], 0)} for i in insts}
     # 3. TLC validates every recorded run against the monitor
-    common.validate(rep, PID, "Wakers", "Trace_Wakers", TRACE_CFG, trace, "callorders", lambda l: '"r":"pending"' in l, sig=signature,
-                    constants=CONSTS)
+    r = vlib.validate_traces(PID, "Trace_Wakers", TRACE_CFG, trace, constants=CONSTS)
+    rep.add_traces("callorders", r["runs"], sleeping_runs(trace), r["events"])
+    with open(trace) as f:
+        rep.sample({"part": "callorders", "first_events": [json.loads(x) for _, x in zip(range(7), f)]})
+    for rej in r["rejected"]:
+        sg, what = signature(PID, "Wakers", rej)
+        rep.violation(sg, what, {"component": "Wakers", "module": "Trace_Wakers", "rejected_at": rej["at"], "reason": rej["reason"], "trace": rej["run"]})
     rep.cov["rule"] = ("every call order (to the class depth) of 1-2 waiting tasks (poll / check / wait / re-poll / drop) and notifiers (set, flag;notify, touch, "
                        "close) enumerated by TLC and executed on each real waiter/notifier object with one counting Waker per task; TLC validates each "
-                       "recorded call (result vs abstract condition, wake counters vs NoLostWakeup / CloseWakesAll). distinct_nontrivial = distinct runs in "
+                       "recorded call (result vs abstract condition, wake counters vs NoLostWakeup / CloseWakesAll). distinct_nontrivial = distinct (instance, run) pairs in "
                        "which at least one poll/wait returned Pending (a task actually went to sleep).")
     rep.cov["exhaustive"] = True
     rep.assumptions += [
@@ -113,7 +135,7 @@ def run(tier, rep):
         "per path) are exercised with one waiting task: their documented contract is that a second task replaces (or panics on) the first; Parameters, "
         "LocalStreamIds and ArcSendWakers are exercised with two tasks",
         "interleavings are at the granularity of public calls; a call with two critical sections (SendBuffer::write) is split at a cfg(gmquic_verif) sync point",
-        "wake-ups delivered while an object is dropped are not counted",
+        "wake-ups issued when the object itself is dropped at the end of a run are not observed",
     ]
 
 
